@@ -55,6 +55,31 @@ CHECKS = {
    text="92 records (all 22 parser-supported types x value shapes x owner/TTL/class envelopes) printed under every legal layout vector (name forms, TTL/class inheritance and order, $ORIGIN/$TTL, separators, comments, parentheses over 1-3 lines, quoted/unquoted strings, line endings): 5.5 M single-record and 6.6 M (quick) / 104 M (thorough) two-record files, 11.6 M triples; the parsed record set must equal the printed one. Malformed: all strings of length <=5/6 over 15 characters, 222 k single edits of 63 seeds (14 M double edits thorough), 25 growth families to 2^16, $INCLUDE cases; parse() must return, never panic or hang.",
    note="Trusted: vref::masterfile printer (declares a layout illegal when it would not denote the record). \\DDD escapes and escapes in unquoted strings are observations.",
    design="6/C20, 11"),
+ "C06": dict(level="exploration", engine="E-ENUM+E-STATE",
+   technique="exhaustive enumeration of every single-bit flip and single-field replacement of honest (answer, DNSKEY) response pairs x a clock grid incl. the u32 wrap, and of all validate/advance histories up to depth 4/5 on a shared handle, against an independent only-if acceptance predicate (reference signed data + ring)",
+   text="63 base cases (7 RRset kinds x ED25519/ECDSAP256/RSASHA256 x 4 key layouts incl. three equal-tag keys) signed by the real signer and validated by the real DnssecDnsHandle over a scripted upstream with a virtual validator clock (wall clock via SimProvider, validation-cache clock via the hook): every single-bit flip of both responses (253 k), field replacements / re-made RRSIGs / DNSKEY-set edits, clock grid around inception/expiration incl. windows across 2^32 and lengths 0,1,2^31-1,2^31,2^31+1, and all op sequences of length 4/5 over {validate x 4 worlds, clone, advance...}. Secure is allowed only if the 12-clause reference predicate holds on the mutated bytes at the time of each validate; Secure TTL <= expiration - now.",
+   note="Trusted: vref::sigref (canonical signed data, key tag, RFC 1982, ring verification). ECDSA nonces make flip-outcome counts vary by +-2 between runs (verdict and keys do not). Multi-bit mutations other than field replacements not covered.",
+   design="6/C06, 11"),
+ "C07": dict(level="fault_enumeration", engine="E-FAULT",
+   technique="fault enumeration: record the upstream responses of honest validations in small signed hierarchies served by the real signing/server code, then enumerate every record-level fault and response-level attacker move at every position (all singles, bounded pairs), positions closed over the queries observed under attack, against ground truth in the published zones",
+   text="9 (quick) / 12 (thorough) hierarchies (all signed; unsigned leaf with NSEC / NSEC3 / opt-out proof; signed next to insecure sibling; two keys with DS for one; unsupported-only DS; island; key-tag collision; ...) x 76/82 targets, 1,414 fault positions after closure: L1 faults at every record (drop, bit flip, RDATA/owner/TTL change, strip RRSIGs, re-sign with 7 key choices), L2 moves at every response (forge unsigned/signed, unsupported DS, wildcard replay, strip section, rcode change, SOA + forged NSEC, replace-by-denial over type x owner x signedness); 148 k singles, 130 k / 910 k pairs, 27 k server cases (validating forwarder: SERVFAIL for CD=0, AD only when all Secure). A record returned Secure must be published data signed by its own zone; Insecure only where the published hierarchy has an insecure delegation; everything else error/Bogus.",
+   note="Trusted: the honest router stands in for a recursive upstream; published zones are ground truth. Quick runs pairs only for positive-A / DS / DNSKEY queries; general L2xL2 pairs and triples not enumerated. Hierarchies deeper than 3 zones not covered.",
+   design="6/C07, 11"),
+ "C12": dict(level="model_checking", engine="E-STATE",
+   technique="explicit-state breadth-first search over UPDATE message histories executed on the real SqliteZoneHandler through Catalog (canonical zone-state keys, only conforming successors expanded), every transition compared with an RFC 2136 / RFC 1982 reference model that parses the raw request bytes",
+   text="87 prerequisite atoms x 115 update atoms (every form of RFC 2136 3.2.4 / 3.4.2.6 incl. malformed variants) over a 5-owner universe: M1 (<=1 prerequisite x <=1 update, 10,208 messages), M1-core, M1-serial and M2 (<=2 prerequisites x <=3 updates in every order) from 7 root zones (minimal, rich, delegation, wildcard, serials 0 / 2^31-1 / 2^32-2); quick 5,260 states / 610 k transitions, thorough 161 k states / 37.5 M transitions, each transition a TSIG-signed wire message through the real handler. Per transition: rcode in the acceptable set, rejected => zone unchanged, accepted => one of the acceptable reference zones, exactly one SOA / apex NS / CNAME alone, serial strictly advanced (RFC 1982) iff content changed.",
+   note="Trusted: vref::update (forks where RFC prose and pseudocode disagree, e.g. last-NS protection), canonical key argument backed by a same-key/different-history differential and a rebuild-vs-put-back self-test. DNSSEC-enabled sub-grid and >4 owners not covered.",
+   design="6/C12, 11"),
+ "C13": dict(level="fault_enumeration", engine="E-FAULT",
+   technique="fault enumeration over honest TSIG-signed UPDATE/AXFR requests and their replies: every single-bit flip, byte substitution, truncation, extension, count edit and structural TSIG edit x clock offsets (window edges and integer-width boundaries) x key sets x AXFR policies, against an independent RFC 8945 reference verifier (digest rebuilt from raw bytes, HMAC via ring)",
+   text="1.17 M (quick) / 2.9 M (thorough) cases through the real Catalog + SqliteZoneHandler with the virtual server clock: Part A every mutant of 4 honest requests x window offsets x 5 key sets x 3 AXFR policies; Part B unmodified requests with valid MAC x time-signed values near 0, 2^16, 2^32, 2^48-1 x clock offsets +-(2^15..2^33)+-{0,1,F,F+1}; Part C every mutant of 20 accepted replies fed to the client-side TSigVerifier. A request may take effect (zone changed / AXFR data returned) only if the reference verifier accepts those bytes at that clock; accepted requests' replies verify; a modified reply is accepted only if the reference accepts it; no panic.",
+   note="Trusted: vref::tsig, ring HMAC. Multi-message AXFR chaining and double-byte edits not covered.",
+   design="6/C13, 11"),
+ "C14": dict(level="fault_enumeration", engine="E-FAULT",
+   technique="crash-point enumeration: for every update history over a small message alphabet, every durable prefix of the journal row sequence (observed through a second read-only connection at each journal-write hook point and acknowledgement) is recovered with the real recovery path and compared with the crash-free run; continuations and a second crash enumerated",
+   text="1,885 histories of <=3 messages (quick; <=4 thorough, two start zones) on a journal-backed SqliteZoneHandler; at every journal_insert_record hook point and acknowledgement the durable row count is read and a real SOA query is answered (in-flight serials); for every distinct crash point a fresh journal with exactly those rows is recovered with recover_with_journal (46 k / 979 k recoveries and continuation steps). Recovered content+serial must equal the crash-free state before or after the in-flight message, never below any answered serial; every continuation message must give the same rcode and state as on the never-crashed handler; a second crash inside the continuation is enumerated.",
+   note="Trusted: SQLite's atomic commit per statement/transaction (crash = what the second connection sees committed); serial-wrap regimes and torn pages not covered.",
+   design="6/C14, 11"),
 }
 
 NOT_BUILT_REASON = "check not built yet at this commit (design in DESIGN.md section 6); not claimed until its quick tier runs clean"
